@@ -44,3 +44,41 @@ fn c13_continuation_error_offset_is_not_valid_up_to() {
     assert_eq!(e.offset, 2, "offset now equals valid_up_to?");
     assert_ne!(e.offset, valid_up_to, "finding is stale");
 }
+
+/// C17: a node whose start position equals the text length is lost by the
+/// compact start-position table when the text length is a multiple of 64
+/// (the interest-bit vector has no bit for position == text_len).
+#[test]
+fn c17_open_position_at_text_len_multiple_of_64() {
+    use succinctly::verif_hooks::OpenPositions;
+    let op = OpenPositions::build(&[3, 64], 64);
+    assert!(op.is_compact());
+    assert_eq!(op.get(0), Some(3));
+    assert_eq!(op.get(1), Some(64), "position == text_len (64) must be returned");
+    // text_len 65 has room for bit 64
+    let op = OpenPositions::build(&[3, 64], 65);
+    assert_eq!(op.get(1), Some(64));
+}
+
+/// Same defect through the public YAML API: a 64-byte document whose last node
+/// (an empty value) starts at offset 64.
+#[test]
+fn c17_yaml_node_at_end_of_64_byte_text() {
+    use succinctly::yaml::YamlIndex;
+    let mut doc = String::new();
+    doc.push_str("a: 1\n#");
+    doc.push_str(&"x".repeat(55));
+    doc.push_str("\nk:");
+    assert_eq!(doc.len(), 64, "{doc:?}");
+    let idx = YamlIndex::build(doc.as_bytes()).unwrap();
+    let n = idx.open_positions().len();
+    let mut seen_64 = false;
+    for i in 0..n {
+        let p = idx.open_positions().get(i);
+        assert!(p.is_some(), "open {i} of {n} lost its position");
+        if p == Some(64) {
+            seen_64 = true;
+        }
+    }
+    eprintln!("n={n} seen_64={seen_64}");
+}
